@@ -48,11 +48,13 @@ func (b Backing) Data() []byte {
 // pool (by the op's kind). A holds pointer arguments: >= 0 own variable,
 // -1 nil, <= -2 shared variable -(A+2).
 type Op struct {
-	K string   `json:"k"`
-	R int      `json:"r"`
-	A []int    `json:"a,omitempty"`
-	B []Bytes  `json:"b,omitempty"`
-	U uint64   `json:"u,omitempty"`
+	K string  `json:"k"`
+	R int     `json:"r"`
+	A []int   `json:"a,omitempty"`
+	B []Bytes `json:"b,omitempty"`
+	U uint64  `json:"u,omitempty"`
+	// Q (quiet): the caller does not observe anything after this call.
+	Q bool     `json:"q,omitempty"`
 	H string   `json:"h,omitempty"`
 	X []string `json:"x,omitempty"`
 }
@@ -104,6 +106,9 @@ type Run struct {
 	// ObsAll: observe every variable of the acting task after every step
 	// (otherwise only the receiver).
 	ObsAll bool `json:"obs_all"`
+	// ObsOrder selects the order of the observer groups: 0 encode, identity/zero,
+	// equal; 1 equal, identity/zero, encode; 2 identity/zero, equal, encode.
+	ObsOrder int `json:"obs_order,omitempty"`
 	// Aux: after every call also run the remaining read-only API functions on
 	// the receiver and fold their results into the run-alone comparison (C16).
 	Aux bool `json:"aux,omitempty"`
